@@ -16,7 +16,7 @@ Spec (all ints are reduced modulo the number of options):
     inds     1-6 individuals: gap, t0, c0, recs = 1-12 records
     rec      dt (time increment index, 0 = tie with previous record), k (0 observation, 1 dose,
              2 other event EVID=2, 3 reset EVID=3, 4 reset+dose EVID=4, 5 missing observation
-             MDV=1), amt, dv, route, addl, ii, ss, rate, cov, dvid,
+             MDV=1), amt (1-5: 10..50; 6-10: 0.5, 2.5, 0.25, 0.75, 1.5), dv, route, addl, ii, ss, rate, cov, dvid,
              na (bit mask of missing values (NaN) in this record: 1 first covariate, 2 second covariate,
              4 DV of a record that is not an observation; absent = 0 = nothing missing)
 """
@@ -36,12 +36,13 @@ MODELINFO = {
 }
 COVS = ['WGT', 'AGE']
 NAN = float('nan')
+FRACTIONAL = [0.5, 2.5, 0.25, 0.75, 1.5]
 
 REC = st.fixed_dictionaries(
     dict(
         dt=st.sampled_from([0, 0, 0, 1, 2, 2, 3, 4, 5]),
         k=st.sampled_from([0, 0, 0, 0, 0, 1, 1, 1, 1, 1, 2, 3, 4, 4, 5]),
-        amt=st.integers(1, 5),
+        amt=st.integers(1, 10),
         dv=st.integers(0, 9),
         route=st.integers(0, 1),
         addl=st.sampled_from([0, 0, 0, 1, 2, 3]),
@@ -190,7 +191,11 @@ def build(spec) -> Table:
             dose = k in (1, 4)
             route = _int(_get(r, 'route')) % 2 if kind == 'ivoral' else 0
             d = info['dosing'][route]
-            amt = float(10 * (1 + (_int(_get(r, 'amt', 1)) - 1) % 5)) if dose else 0.0
+            a = _int(_get(r, 'amt', 1))
+            if a <= 5:
+                amt = float(10 * (1 + (a - 1) % 5)) if dose else 0.0
+            else:  # fractional amounts, some of them strictly between 0 and 1
+                amt = FRACTIONAL[(a - 6) % len(FRACTIONAL)] if dose else 0.0
             rec = {idname: ident, 'TIME': t, 'AMT': amt}
             if has['rate']:
                 rec['RATE'] = [0.0, 0.0, amt / 2][_int(_get(r, 'rate')) % 3] if dose else 0.0
